@@ -11,6 +11,18 @@ static Verdict run_c10(const Case &c)
   size_t nb = (size_t)c.geti("blocks");
   bytes in = expand((uint64_t)strtoull(c.get("pseed", "0").c_str(), NULL, 10), nb * 16, (int)c.geti("pstyle"));
   Verdict v;
+  // data related to the IV / to itself: anything a stream object remembers (the IV copy, the previous block) is
+  // then equal to what it is given next
+  long shape = c.geti("shape");
+  if (shape == 1 || shape == 3)
+    for (size_t i = 0; i < nb && i < (size_t)(1 + c.geti("shapen") % 3); i++)
+      memcpy(in.data() + 16 * i, iv.data(), 16);
+  if (shape == 2 || shape == 3)
+    for (size_t i = (shape == 3 ? 4 : 1); i < nb; i++)
+      if ((i / 2) % 2 == 0)
+        memcpy(in.data() + 16 * i, in.data() + 16 * (i - 1), 16);
+  if (shape)
+    v.classes.push_back(shape == 1 ? "data_starts_with_the_iv" : shape == 2 ? "runs_of_equal_blocks" : "iv_prefix_and_equal_blocks");
   int aoff = (int)c.geti("aoff") & 15; // address residue of the blocks handed to the stream objects
   if (aoff)
     v.classes.push_back("blocks_at_unaligned_address");
@@ -32,6 +44,7 @@ static Verdict run_c10(const Case &c)
     Case id;
     id.seti("m", mode);
     id.seti("ao", aoff);
+    id.seti("sh", shape * 4 + c.geti("shapen") % 3);
     id.set("k", hex(key));
     id.set("iv", hex(iv));
     id.seti("nb", (long long)nb);
@@ -137,6 +150,11 @@ static Case gen_c10()
   c.seti("pstyle", g::range(0, 10) < 7 ? 0 : g::range(1, 4));
   if (g::coin(25))
     c.seti("aoff", g::range(1, 16));
+  if (g::coin(20))
+  {
+    c.seti("shape", g::range(1, 4));
+    c.seti("shapen", g::range(0, 3));
+  }
   return c;
 }
 
@@ -162,6 +180,13 @@ static void fixed_c10(Ctx &ctx)
         c.set("pseed", std::to_string(77 + i));
         c.seti("pstyle", 0);
         eval_fixed(*p, ctx, c);
+        if (j % 4 == 0)
+          for (int shape = 1; shape <= 3; shape++)
+          {
+            c.seti("shape", shape);
+            c.seti("shapen", j / 4);
+            eval_fixed(*p, ctx, c);
+          }
       }
   if (ctx.thorough())
     for (int mode = 0; mode < 5; mode++)
